@@ -9,15 +9,18 @@ from common import *
 import itertools
 
 RULE = ("db: every order 1..11 (the property's whole range, both tiers) plus order 0 (panic, not judged). "
-        "bc / hist: judged exactly on the property's quantifier - orders 2..8, lengths n..60, 0..5 bans of length 2..8 over "
-        "A,C,G,T upper case, 0..3 filters from the named family (no extension; anything else is compared with the model but "
-        "not judged: order 1, lengths > 60, empty / one-letter / lower-case / IUPAC bans, length < n, order 0). "
+        "bc / hist: judged on the property's quantifier - orders 2..8, lengths n..60, 0..5 bans over A,C,G,T upper case, "
+        "0..3 filters from the named family - with ONE deliberate extension: a ban may have any length >= 2, not only 2..8 "
+        "(the laws are proved for every ban list and the repository's own examples ban 11 and 14 letters; bans of 9..20 letters "
+        "are generated in both tiers). Anything else is compared with the model but not judged: order 1, lengths > 60, "
+        "empty / one-letter / lower-case / IUPAC bans, length < n, order 0. "
         "Generated: history cases first (orders alternated within one process, e.g. 3,2,3; the harness calls the barcode "
         "function BEFORE it fetches the sequence); exhaustive sub-domains (order 2: every pair of 2-letter bans x lengths 2..6; "
         "order 3: every single ban of length 2..3 x lengths 3..8; thorough adds order 2 triples, order 3 pairs, order 4 singles); "
-        "fixed short-length cases at orders 6, 7, 8 (lengths n..23, i.e. strides 1..17 with up to 65536 slots), plain, adversarial "
-        "and with filters; calls with five bans of which only the last occurs; then random calls, orders 2..8, lengths n..60, "
-        "0..5 bans, 0..3 filters; half of the random calls are adversarial: each further ban (or its reverse complement) is cut "
+        "orders 6, 7, 8 with EVERY length n..23 (strides 1..18, up to 65529 slots) with adversarial bans and filters in both "
+        "tiers, and additionally without bans in the thorough tier (quick: only length n without bans); bans of 9, 11, 14, 20 "
+        "letters cut from a window on either strand (quick: orders 4, 6, 8; thorough: 3..8); calls with five bans of which only "
+        "the last occurs; then random calls, orders 2..8, lengths n..60, 0..5 bans (15 % of them 9..20 letters), 0..3 filters; half of the random calls are adversarial: each further ban (or its reverse complement) is cut "
         "from the letters that shifting past the previous bans brought into the window, so that avoiding one ban re-introduces "
         "another. non-trivial = a db case of order >= 1, or a judged bc/hist case that is not a ban-less call with <= 1 barcode; "
         "class suffixes: shift-readmit = the code before the fix (checks one after another) would have answered differently; "
@@ -29,10 +32,17 @@ TRUSTED_BASE = ["orders 9..11 only (Props/C17Native.lean): each use of native_de
                 "and only when it is named after a theorem of that module; orders 1..8 are kernel-evaluated",
                 "filters are modelled as pure functions Str -> Bool; on the protocol they come from a five-member named family implemented twice (Go harness, Lean model); "
                 "the Go loop calls every filter on every window even after a ban has rejected it - what a stateful filter would observe is outside the model",
+                "the audit of the native module: `check` forbids the word `axiom` in Props/C17Native.lean and accepts an axiom named "
+                "`T._native.native_decide.ax_*` only when T is a theorem of that module; a hand-written axiom of that name in an "
+                "IMPORTED module is rejected only because the forbidden-token list contains `native_decide`, which the name itself "
+                "contains - that token must therefore stay on the list of every module the native one imports",
                 "Go int arithmetic modelled on Nat/Int without overflow; strings are ASCII",
                 "transform.ReverseComplement as modelled for C11 (table regenerated from the code); barcodes_ban_free speaks of that table-driven function, "
-                "the judge of the independent code-set reverse complement (Props/C11 rc_spec connects the two on IUPAC strings)"]
-ASSUMPTIONS = ["filter functions are pure and total", "inputs are ASCII", "length and order are non-negative"]
+                "barcodes_ban_free_spec (through Props/C11 rc_spec, which is re-decided on the regenerated table in every build of Props/C17) and the judge "
+                "speak of the independent code-set reverse complement"]
+ASSUMPTIONS = ["filter functions are pure and total", "inputs are ASCII", "length and order are non-negative",
+               "`native_decide` stays a forbidden token for every module except Props/C17Native.lean (see trusted base: this is what keeps a "
+               "forged native axiom out)"]
 PARTIAL = ["'the generated De Bruijn sequence of order n ... contains every n-letter word exactly once' is proved for n = 1..11 "
            "(the property's quantifier: kernel evaluation for 1..8, native_decide with its per-use axioms for 9..11); the statement for ALL n "
            "(the Fredricksen-Kessler-Maiorana theorem) is written in Props/C17.lean as a comment and NOT claimed"]
@@ -43,10 +53,12 @@ TECHNIQUE = ("Lean 4: a checker for the de Bruijn property proved sound for ever
 LEVEL_TEXT = ("windowsDistinct_sound / checkWith_sound: the checker is sound for every n and every string. db_ok_1..8 (decide +kernel) and "
               "db_ok_9..11 (native_decide, separate module, per-use axioms): the model of NucleobaseDeBruijnSequence passes it on the property's whole range, "
               "and on every run the real function's output is compared with the model's for every order 1..11 and fed to the same checker. "
-              "barcodes_terminate, barcodes_substrings, barcodes_len, barcodes_no_shared_nmer, barcodes_unique, barcodes_ban_free, "
+              "barcodes_terminate, barcodes_substrings, barcodes_len, barcodes_no_shared_nmer, barcodes_unique, barcodes_ban_free "
+              "(and barcodes_ban_free_spec: the independent reverse complement, via Props/C11 rc_spec), "
               "barcodes_filters hold for every order, every length >= order, every ban list (also empty bans), arbitrary filters, and any "
               "string passing the checker; createBarcodes_laws_le8 / _9_11 instantiate them for the function itself. The loop model is tied "
-              "to the code by correspondence (exhaustive small ban sets, random and adversarial ban sets, every stride at orders 6..8, "
+              "to the code by correspondence (exhaustive small ban sets, random and adversarial ban sets incl. bans of 9..20 letters, every stride 1..18 at orders 6..8 with adversarial bans "
+              "(both tiers; without bans: stride 1 in quick, every stride in thorough), "
               "histories of calls with alternating orders, out-of-domain panics); the driver evaluates the model through an executable "
               "twin proved equal to it (barcodesOnFast_eq).")
 LEVEL_NOTE = ("Trusted: Lean kernel (plus, for orders 9..11, the Lean compiler through the per-use axioms "
@@ -128,7 +140,7 @@ def adversarial_bans(r, db, length, n, count):
         if q + length > len(db):
             break
         w = db[q:q + length]
-        bl = r.randint(2, min(8, length))
+        bl = r.randint(2, min(8, length)) if r.random() < 0.85 else r.randint(min(9, length), min(20, length))
         # prefer the end of the window: the shift must then move far, and re-admits letters
         at = r.randint(max(0, length - bl - 2), length - bl) if r.random() < 0.7 else r.randint(0, length - bl)
         piece = w[at:at + bl]
@@ -171,12 +183,25 @@ def cases(seed, tier):
         yield bc(n, n)                                          # stride 1: 4^n - n + 1 ... slots
         yield bc(n + 1, n, adversarial_bans(r, db, n + 1, n, 3))
         yield bc(23, n, adversarial_bans(r, db, 23, n, 4), [rand_filter(r, 23) for _ in range(3)])
-        lens = range(n, 24) if thorough else [r.randint(n, 23) for _ in range(2)]
-        for length in lens:
+        for length in range(n, 24):                              # every stride 1..24-n, both tiers
             yield bc(length, n, adversarial_bans(r, db, length, n, r.randint(1, 5)),
                      [rand_filter(r, length) for _ in range(r.choice([0, 0, 1, 2]))])
             if thorough:
                 yield bc(length, n)
+    # ---- bans longer than 8 letters (the repository's own examples ban 11 and 14 letters): cut from a window, either strand
+    for n in ((3, 4, 5, 6, 7, 8) if thorough else (4, 6, 8)):
+        db = debruijn(n)
+        for bl in (9, 11, 14, 20):
+            length = r.randint(max(n, bl), 60)
+            if length + 1 >= len(db):
+                continue
+            stride = length - n + 1
+            p = stride * r.randrange(3) + r.randint(0, length - bl)
+            if p + bl > len(db):
+                p = r.randint(0, length - bl)
+            w = db[p:p + bl]
+            yield bc(length, n, [w if r.random() < 0.5 else rc(w)])
+            yield bc(length, n, [rc(w), randword(r, "ATGC", bl), db[p + 1:p + 3]], [rand_filter(r, length)])
     # ---- five bans of which only the last one occurs anywhere (a limit on the number of bans honoured would show)
     for n in ((3, 4, 5, 6) if thorough else (3, 5)):
         db = debruijn(n)
@@ -235,7 +260,7 @@ def cases(seed, tier):
         else:
             bans = []
             for _ in range(nb):
-                bl = r.randint(2, 8)
+                bl = r.randint(2, 8) if r.random() < 0.85 else r.randint(9, 20)
                 if r.random() < 0.6 and bl <= len(db):
                     at = r.randrange(len(db) - bl + 1)
                     b = db[at:at + bl]
